@@ -376,6 +376,9 @@ func cmdCheck(args []string) int {
 		for _, v := range x.Violations {
 			if o, ok := vio[v.Key]; ok {
 				o.Count += v.Count
+				if len(v.Case) < len(o.Case) {
+					o.Case, o.What = v.Case, v.What
+				}
 			} else {
 				vio[v.Key] = v
 			}
